@@ -788,6 +788,9 @@ theorem loop2_encode (pf : Bytes → List Text → List (Text × Text) → Res T
 theorem ridKey_ne (k : String) (h : ridKeyOk k) : k ≠ "name" ∧ k ≠ "state" := by
   constructor <;> (intro hk; subst hk; exact absurd h.1 (by decide))
 
+/-- the namespace declaration `xmlns:id="…"` is not the relationship-id attribute (fix f69fe90) -/
+theorem xmlns_id_not_rid : ¬ relIdKey "xmlns:id" := by decide
+
 theorem xlsxVis_lookup (v : SheetVisible) : Gen.xlsxVisTable.lookup (xlsxVisName v) = some v := by
   cases v <;> decide
 
@@ -796,7 +799,7 @@ theorem sheetAttrs_name (rels : List (String × String)) (v : String) (rest : Li
   rw [sheetAttrs]; simp only [if_true]
 
 theorem sheetAttrs_other (rels : List (String × String)) (k v : String) (rest : List (String × String)) (acc : SheetAcc)
-    (h1 : k ≠ "name") (h2 : k ≠ "state") (h3 : ¬ ((afterColon k.toList).isSome = true ∧ localName k = "id")) :
+    (h1 : k ≠ "name") (h2 : k ≠ "state") (h3 : ¬ relIdKey k) :
     sheetAttrs rels ((k, v) :: rest) acc = sheetAttrs rels rest acc := by
   rw [sheetAttrs]; simp only [h1, h2, h3, if_false]
 
@@ -811,8 +814,8 @@ theorem sheetAttrs_rid (rels : List (String × String)) (k v t : String) (acc : 
     sheetAttrs rels [(k, v)] acc = .ok { acc with path := xlsxPath t.toList } := by
   obtain ⟨hn, hst⟩ := ridKey_ne k hk
   rw [sheetAttrs]
-  have hc : (afterColon k.toList).isSome = true ∧ localName k = "id" := hk
-  simp only [hn, hst, hc, if_false, and_self, if_true, ht, sheetAttrs]
+  have hc : relIdKey k := hk
+  simp only [hn, hst, hc, if_false, if_true, ht, sheetAttrs]
 
 theorem xlsxSheet_attrs (rels : List (String × String)) (ridKey : String) (hk : ridKeyOk ridKey) (s : XSheet) (hs : s.ok rels) :
     xlsxSheet rels (sheetAttrList ridKey s) = .ok (xsheetDecoded s) := by
@@ -985,8 +988,8 @@ theorem loop_sheets (cfg : XlsxCfg) (rels : List (String × String)) (q : String
     have hs := hall s (by simp)
     have hss : ∀ t ∈ ss, t.ok rels := fun t ht => hall t (by simp [ht])
     simp only [List.flatMap_cons, sheetEvents, List.cons_append, List.nil_append]
-    rw [loop_start_sheet cfg rels _ _ _ _ _ _ (hq "sheet") _ (xlsxSheet_attrs rels ridKey hk s hs)]
-    rw [loop_end_skip cfg rels _ _ _ rfl rfl (by rw [hq "sheet"]; decide)]
+    rw [loop_start_sheet cfg rels _ _ _ _ _ _ (hq "sheet" (by decide)) _ (xlsxSheet_attrs rels ridKey hk s hs)]
+    rw [loop_end_skip cfg rels _ _ _ rfl rfl (by rw [hq "sheet" (by decide)]; decide)]
     rw [ih hss]
     simp [List.append_assoc]
 
@@ -1025,12 +1028,12 @@ theorem loop_names (cfg : XlsxCfg) (rels : List (String × String)) (q : String 
   | cons n ns ih =>
     intro rest sh nm d
     simp only [List.flatMap_cons, definedNameEvents, List.cons_append, List.nil_append, List.append_assoc]
-    rw [loop_start_dn cfg rels _ _ _ _ _ _ n.1 hpm (hq "definedName") (by simp [List.lookup])]
+    rw [loop_start_dn cfg rels _ _ _ _ _ _ n.1 hpm (hq "definedName" (by decide)) (by simp [List.lookup])]
     rw [loop_texts cfg rels hc, loop_end_in, ih]
     simp [List.append_assoc, dnValue]
 
-theorem pm_q (q : String → String) (hq : QOk q) (s : String) : cfgNow.prMatch (q s) = (s == "workbookPr") := by
-  simp [cfgNow, hq s]
+theorem pm_q (q : String → String) (hq : QOk q) (s : String) (hs : s ∈ xlsxNames) : cfgNow.prMatch (q s) = (s == "workbookPr") := by
+  simp [cfgNow, hq s hs]
 
 /-- with the current code a `date1904` attribute list decides the flag like before when nothing was set yet -/
 theorem date1904Upd_false (attrs : List (String × String)) : date1904Upd true false attrs = date1904Attr attrs := by
